@@ -79,6 +79,8 @@ func (st *state) dispatch(toks []string) (string, string) {
 		return st.apiOp(toks)
 	case "frag":
 		return fragOp(toks), ""
+	case "pschema", "penc", "pdec":
+		return patchWireOp(toks), ""
 	case "ll":
 		return llOp(toks), ""
 	case "watch", "feed", "replicate", "watchp", "feedp", "watchx", "unwatchx":
